@@ -38,6 +38,9 @@ void c20t_saved();
 void c20trace_run();
 
 const C20IPlan *c20i_plan();
+int c20i_count();                      // images written in this run (each by its own thread if > 1)
+const C20IPlan *c20i_plan_n(int i);
+const char *c20_path_n(int i);
 void c20i_written();
 void c20img_run();
 }
